@@ -60,7 +60,7 @@ theorem range0_rev_succ (i : Nat) : (List.range' 0 (i + 1)).reverse = i :: (List
   rw [List.range'_concat]; simp
 
 /-- emitting the block of level `j` without touching its parent -/
-theorem flushStep_emit (cd : Codec) (hcd : ∀ b, (cd.compress b).length < 2 ^ 64) (g : Gen.Writer) (r j : Nat)
+theorem flushStep_emit (cd : Codec) (hcd : ∀ b : Bytes, b.length < 2 ^ 63 → (cd.compress b).length < 2 ^ 64) (g : Gen.Writer) (r j : Nat)
     (cur : BW) (hcur : mBW g.index_block_writers[j]! cur) (hsc : Small (2 ^ 62) (2 ^ 31) g.index_block_writers[j]!)
     (hj : (∃ lk, cur.lastKey = some lk) ∧ j = 0 ∨ cur.lastKey = none ∧ j = 0) :
     ∃ x'', flushStep (codecFn cd) j (g, r) =
@@ -87,7 +87,7 @@ theorem flushStep_skip (C : CompressFn) (g : Gen.Writer) (r j : Nat) (cur : BW)
   simp only [bind, Except.bind, bw_last_key_sim _ cur hcur, hlk, pure, Except.pure, this, decide_false,
     Bool.false_eq_true, if_false]
 
-theorem flushStep_link (cd : Codec) (hcd : ∀ b, (cd.compress b).length < 2 ^ 64) (g : Gen.Writer) (r i : Nat)
+theorem flushStep_link (cd : Codec) (hcd : ∀ b : Bytes, b.length < 2 ^ 63 → (cd.compress b).length < 2 ^ 64) (g : Gen.Writer) (r i : Nat)
     (cur parent : BW) (lk : Bytes) (hlk : cur.lastKey = some lk)
     (hcur : mBW g.index_block_writers[i + 1]! cur) (hpar : mBW g.index_block_writers[i]! parent)
     (hsc : Small (2 ^ 62) (2 ^ 31) g.index_block_writers[i + 1]!)
@@ -121,7 +121,7 @@ theorem flushStep_link (cd : Codec) (hcd : ∀ b, (cd.compress b).length < 2 ^ 6
 
 
 /-- **The level loop of `Writer::into_inner` is the model's `flushLevels`.** -/
-theorem flush_loop (cd : Codec) (hcd : ∀ b, (cd.compress b).length < 2 ^ 64) :
+theorem flush_loop (cd : Codec) (hcd : ∀ b : Bytes, b.length < 2 ^ 63 → (cd.compress b).length < 2 ^ 64) :
     ∀ (n : Nat) (g : Gen.Writer) (idx : List BW) (log : List Emitted) (root : Nat),
     mIdx g.index_block_writers idx → n ≤ idx.length →
     (∀ t, t + 1 < n → Small (2 ^ 61) (2 ^ 30) g.index_block_writers[t]!) →
@@ -223,7 +223,7 @@ theorem flush_loop (cd : Codec) (hcd : ∀ b, (cd.compress b).length < 2 ^ 64) :
 
 
 /-- the tail of `into_inner`: the index levels, then the trailer -/
-theorem into_inner_tail (cd : Codec) (hcd : ∀ b, (cd.compress b).length < 2 ^ 64) (g3 : Gen.Writer) (idx3 : List BW)
+theorem into_inner_tail (cd : Codec) (hcd : ∀ b : Bytes, b.length < 2 ^ 63 → (cd.compress b).length < 2 ^ 64) (g3 : Gen.Writer) (idx3 : List BW)
     (log3 : List Emitted) (cnt : Nat) (hm3 : mIdx g3.index_block_writers idx3) (hpos : 0 < idx3.length)
     (hs0 : ∀ t, t + 1 < idx3.length → Small (2 ^ 61) (2 ^ 30) g3.index_block_writers[t]!)
     (hs1 : Small (2 ^ 62) (2 ^ 31) g3.index_block_writers[idx3.length - 1]!)
@@ -277,7 +277,7 @@ theorem into_inner_tail (cd : Codec) (hcd : ∀ b, (cd.compress b).length < 2 ^ 
 
 /-- **`Writer::into_inner` is the model's `W.finish`**: the translated code hands back exactly the model's
     file bytes (last data block, index levels bottom-up, trailer), or panics where the model traps. -/
-theorem src_writer_into_inner (cd : Codec) (hcd : ∀ b, (cd.compress b).length < 2 ^ 64) (g : Gen.Writer) (w : W)
+theorem src_writer_into_inner (cd : Codec) (hcd : ∀ b : Bytes, b.length < 2 ^ 63 → (cd.compress b).length < 2 ^ 64) (g : Gen.Writer) (w : W)
     (hr : RW g w) (hs : SmallW g) (hct : g.compression_type.toNat = cd.id) :
     match W.finish cd w with
     | .ok (file, _) => Gen.Writer.into_inner (codecFn cd) g = .ok file
